@@ -889,6 +889,22 @@ func c14Cycles() []c14Scenario {
 	} {
 		out = append(out, extra)
 	}
+	// a module that states belongs-to and includes submodules whose references go by every prefix in sight
+	for _, ref := range []string{"uses aa:g;", "uses a:g;", "uses zz:g;", "uses g;", "leaf x { type aa:t; }", "leaf x { type a:t; }", "leaf x { type zz:t; }", "leaf x { type t; }", "leaf x { type identityref { base aa:i; } }", "leaf x { if-feature aa:f; type string; }", `augment "/aa:top" { leaf y { type string; } }`, `uses aa:g { refine l { default "d"; } }`} {
+		for _, btName := range []string{"z", "a"} {
+			top := `module a { namespace "urn:a"; prefix a; belongs-to ` + btName + ` { prefix zz; } include s; grouping g { leaf l { type string; } } typedef t { type string; } identity i; feature f; container top { } }`
+			sub := `submodule s { belongs-to a { prefix aa; } container c { ` + ref + ` } }`
+			if strings.HasPrefix(ref, "augment") {
+				sub = `submodule s { belongs-to a { prefix aa; } ` + ref + ` }`
+			}
+			out = append(out, c14Scenario{"module-with-belongs-to-and-include/" + btName + "/" + strings.Trim(strings.Fields(ref)[0]+"-"+strings.Fields(ref)[1], `{};"`), top, memOpener(map[string]string{"s": sub})})
+			// and a regular module with the same submodule
+			plain := `module a { namespace "urn:a"; prefix a; include s; grouping g { leaf l { type string; } } typedef t { type string; } identity i; feature f; container top { } }`
+			if btName == "z" {
+				out = append(out, c14Scenario{"submodule-reference-by-prefix/" + strings.Trim(strings.Fields(ref)[0]+"-"+strings.Fields(ref)[1], `{};"`), plain, memOpener(map[string]string{"s": sub})})
+			}
+		}
+	}
 	// groupings that use themselves (a freeconf extension) below a choice, a case, a list, an rpc
 	for name, body := range map[string]string{
 		"in-a-case":                 `grouping g { choice c { case a { uses g; leaf l { type string; } } } } container top { uses g; }`,
